@@ -91,9 +91,18 @@ def run(prop, tier, seed, workdir, replays):
                 res["violations"].append({"signature": f"probe:{b}:does-not-build", "replay": rp,
                                           "text": f"positive fact lost: {p['fact']} :: {e[0][1][:300] if e else ''}"})
     # run what builds under Miri (exploits that build, and all control twins)
+    seeds = [seed % 1000 + 1] if tier == "quick" else [seed % 1000 + 1, seed % 1000 + 2, seed % 1000 + 3]
+
     def job(item):
+        # thorough: several Miri seeds (schedules); the first run that is not clean decides
         p, is_exploit = item
-        return item, miri_run(p["bin"], seed % 1000 + 1)
+        last = None
+        for sd in seeds:
+            last = miri_run(p["bin"], sd)
+            rc, out, wall = last
+            if rc != 0 or "Undefined Behavior" in out:
+                break
+        return item, last
     # warm the miri build once so that the parallel runs do not fight over the build lock
     if to_run:
         miri_run(to_run[0][0]["bin"], 1)
